@@ -184,4 +184,33 @@ theorem idle_nothing_half_destroyed (c : Cfg) (nH nW nK : Nat) (w : World) (h : 
     have := (reachableR_life c nH nW nK w h).np x (by simp [Obj.lv, hb, hv])
     rw [hs] at this; simp [ownedDead] at this
 
+/-- **Outside collections a `Cc::drop` that leaves the count above zero leaves the object buffered** — in every reachable
+world whose stack holds no collector pass (the marks are then `NonMarked` / `PossibleCycles` by the machine invariant, so the
+collector's "only decrement" path cannot be taken): the count goes down by exactly one and the object is in the buffer, marked.
+(The run-time counterpart is the oracle `dec-not-buffered`.) -/
+theorem drop_outside_collections_buffers (c : Cfg) (nH nW nK : Nat) (w : World) (h : Reachable c nH nW nK w)
+    (x : Id) (rest : List Frame) (hs : w.stack = .dropCc x :: rest) (hm : w.mode = .running)
+    (hl : listed w.stack = []) (hrc : (w.heap x).rc ≠ 1) (hd : (w.heap x).dropped = false) :
+    x ∈ (step c w).pc ∧ ((step c w).heap x).mark = .pc ∧ ((step c w).heap x).rc = (w.heap x).rc - 1 := by
+  have hi := (reachable_all c nH nW nK w h).inv.oi
+  have e : step c w = stepFrame c { w with stack := rest } (.dropCc x) := by
+    unfold step; rw [hm]; simp only []; rw [hs]
+  have hmark : (w.heap x).mark = .non ∨ (w.heap x).mark = .pc := by
+    cases hk : (w.heap x).mark with
+    | non => exact Or.inl rfl
+    | pc => exact Or.inr rfl
+    | inList => have := (hi.mList x).1 hk; rw [hl] at this; cases this
+    | inQueue => exact absurd hk (hi.noQueue x)
+  rw [e, drop_shared c { w with stack := rest } x hmark hrc]
+  rcases hmark with hk | hk
+  · have h1 : ((({ w with stack := rest } : World).upd x fun o => { o with rc := o.rc - 1 }).heap x).mark = .non := by simp [hk]
+    have h2 : ((({ w with stack := rest } : World).upd x fun o => { o with rc := o.rc - 1 }).heap x).dropped = false := by simp [hd]
+    unfold addToList
+    rw [if_neg (by rw [h1]; decide), if_neg (by simp [hk, hd])]
+    simp [World.upd]
+  · have h1 : ((({ w with stack := rest } : World).upd x fun o => { o with rc := o.rc - 1 }).heap x).mark = .pc := by simp [hk]
+    unfold addToList
+    rw [if_pos h1]
+    exact ⟨(hi.mPc x).1 hk, by simp [hk], by simp⟩
+
 end RustCc.C04
